@@ -542,8 +542,10 @@ def r5(R, repo):
       for call in astu.func_calls(f):
         if astu.call_tail(call) == 'from_sorted_keys_values':
           key = key_of(f, 'from_sorted_keys_values')
-          R.check(f.fq in SORTED_CALLERS, key, (f, call), evidence=True, msg_fail=
-                  'from_sorted_keys_values skips sorting and may only be called from %s (graph traversal in sorted key order)' % sorted(SORTED_CALLERS))
+          # a new caller is not wrong by itself (its keys may well be sorted, e.g. taken from a sorted FlatState): it is something this
+          # rule cannot decide, so it is reported as inconclusive rather than as a violation
+          R.check(f.fq in SORTED_CALLERS, key, (f, call), msg_fail=
+                  'from_sorted_keys_values skips sorting; besides %s (graph traversal in sorted key order) it is now also called here, and whether these keys are sorted is not decided' % sorted(SORTED_CALLERS))
   # _split_state input is order preserving: iterates the flat state once, in order
   sp = mod.func('_split_state')
   loops = [n for n in astu.body_walk(sp.node) if isinstance(n, ast.For) and astu.src(n.iter) == astu.params(sp.node)[0]]
